@@ -242,11 +242,17 @@ func c10Case(c *Ctx) {
 		gcfg.ManyFileTypes = c.Plan.Draw(2) == 0
 	}
 	prog := Generate(c.Plan, gcfg)
-	tsel := c.Plan.Draw(6)
+	tsel := c.Plan.Draw(7)
 	forkTemplate := tsel == 0
 	if forkTemplate {
 		prog = templateForkOrderProg(c.Plan)
 		c.Res.Probes["fork-order-template"]++
+	}
+	if tsel == 2 {
+		// a pipeline map-called over a literal collection, holding a sub-pipeline whose
+		// inputs come from a stage that forks with the map call and from one that does not
+		prog = templateLiteralMapProg(c.Plan)
+		c.Res.Probes["literal-map-call-with-mixed-inputs-template"]++
 	}
 	if tsel == 1 {
 		// the same call id at several nesting levels, all of them feeding one stage
@@ -399,6 +405,74 @@ func diffLines(a, b string) string {
 		only = only[:12]
 	}
 	return strings.Join(only, " ")
+}
+
+// templateLiteralMapProg: TOP map-calls MID over a literal array or typed map (fork counts
+// known at compile time); MID calls one stage per element (it forks with the map call) and
+// one or two stages with arguments that do not depend on the element (they do not), and
+// hands their results - in a drawn order, next to pipeline inputs - to a sub-pipeline.
+func templateLiteralMapProg(plan *Tape) *Prog {
+	p := &Prog{}
+	intT := Ty{Base: "int"}
+	ref := func(call string, path ...string) *Expr { return &Expr{Kind: ERef, Call: call, Path: path} }
+	self := func(path ...string) *Expr { return &Expr{Kind: ERef, Self: true, Path: path} }
+	nshared := 1 + plan.Draw(2)
+	leaf := &StageDef{Name: "LEAF", SrcKind: "comp", Ins: []Field{{"v", intT}}, Outs: []Field{{"z", intT}}}
+	inner := &PipelineDef{Name: "INNER", Ins: []Field{{"v", intT}}, Outs: []Field{{"z", intT}}}
+	p.Stages = []*StageDef{{Name: "PERELEM", SrcKind: "comp", Ins: []Field{{"x", intT}}, Outs: []Field{{"y", intT}}}}
+	mid := &PipelineDef{Name: "MID", Ins: []Field{{"elem", intT}, {"n", intT}}, Outs: []Field{{"z", intT}}}
+	mid.Calls = []*CallDef{{Callee: "PERELEM", Id: "PERELEM", Binds: []Bind{{"x", self("elem"), false}}}}
+	ibinds := []Bind{{"v", ref("PERELEM", "y"), false}}
+	lbinds := []Bind{{"v", self("v"), false}}
+	for i := 0; i < nshared; i++ {
+		nm := fmt.Sprintf("SHARED%d", i)
+		p.Stages = append(p.Stages, &StageDef{Name: nm, SrcKind: "comp", Ins: []Field{{"n", intT}}, Outs: []Field{{"y", intT}}})
+		mid.Calls = append(mid.Calls, &CallDef{Callee: nm, Id: nm, Binds: []Bind{{"n", self("n"), false}}})
+		w := fmt.Sprintf("w%d", i)
+		inner.Ins = append(inner.Ins, Field{w, intT})
+		leaf.Ins = append(leaf.Ins, Field{w, intT})
+		ibinds = append(ibinds, Bind{w, ref(nm, "y"), false})
+		lbinds = append(lbinds, Bind{w, self(w), false})
+	}
+	if plan.Draw(2) == 0 {
+		inner.Ins = append(inner.Ins, Field{"u", intT})
+		leaf.Ins = append(leaf.Ins, Field{"u", intT})
+		ibinds = append(ibinds, Bind{"u", self("n"), false})
+		lbinds = append(lbinds, Bind{"u", self("u"), false})
+	}
+	for i := len(ibinds) - 1; i > 0; i-- {
+		k := plan.Draw(i + 1)
+		ibinds[i], ibinds[k] = ibinds[k], ibinds[i]
+	}
+	p.Stages = append(p.Stages, leaf)
+	inner.Calls = []*CallDef{{Callee: "LEAF", Id: "LEAF", Binds: lbinds}}
+	inner.Ret = []Bind{{"z", ref("LEAF", "z"), false}}
+	mid.Calls = append(mid.Calls, &CallDef{Callee: "INNER", Id: "INNER", Binds: ibinds})
+	mid.Ret = []Bind{{"z", ref("INNER", "z"), false}}
+	top := &PipelineDef{Name: "TOPL", Ins: []Field{{"n", intT}}}
+	nel := 2 + plan.Draw(3)
+	var src *Expr
+	outT := intT.ArrayOf()
+	if plan.Draw(2) == 0 {
+		var vals []interface{}
+		for i := 0; i < nel; i++ {
+			vals = append(vals, int64(10+i))
+		}
+		src = &Expr{Kind: ELit, Val: vals, T: intT.ArrayOf()}
+	} else {
+		m := NewOMap()
+		for i := 0; i < nel; i++ {
+			m.Set([]string{"q", "b", "zz", "a", "m"}[i], int64(20+i))
+		}
+		src = &Expr{Kind: ELit, Val: m, T: intT.MapOf()}
+		outT = intT.MapOf()
+	}
+	top.Calls = []*CallDef{{Callee: "MID", Id: "MID", Mapped: true, Binds: []Bind{{"elem", src, true}, {"n", self("n"), false}}}}
+	top.Outs = []Field{{"zs", outT}}
+	top.Ret = []Bind{{"zs", ref("MID", "z"), false}}
+	p.Pipelines = []*PipelineDef{inner, mid, top}
+	p.Top = &CallDef{Callee: "TOPL", Id: "TOPL", Binds: []Bind{{"n", &Expr{Kind: ELit, Val: int64(plan.Draw(10000)), T: intT}, false}}}
+	return p
 }
 
 // templateSameIdProg: pipelines nested two to four deep, each calling a stage under the
